@@ -1,3 +1,4 @@
 SPECIFICATION PtfSpec
 INVARIANT RowCount
+INVARIANT LowestLevelKept
 CHECK_DEADLOCK FALSE
